@@ -117,10 +117,11 @@ func cmdCheck(args []string) {
 	if *thorough {
 		timeout = 90
 	}
-	opts := solveOpts{timeoutS: timeout, workDir: work, all: *thorough, par: 6}
+	opts := solveOpts{timeoutS: timeout, workDir: work, all: *thorough, par: 8}
 
 	var reports []oblReport
 	var failed []*Obligation
+	var pendingObs []*Obligation
 	funcs := map[string]bool{}
 	inlined := map[string]bool{}
 	externs := map[string]bool{}
@@ -173,7 +174,10 @@ func cmdCheck(args []string) {
 					sel = append(sel, o)
 				}
 			}
-			solveAll(res.script, sel, opts)
+			for _, o := range sel {
+				o.script = res.script
+			}
+			pendingObs = append(pendingObs, sel...)
 			funcs[res.Name] = true
 			for _, x := range res.Inlined {
 				inlined[x] = true
@@ -187,23 +191,25 @@ func cmdCheck(args []string) {
 			for _, x := range res.Regexes {
 				regexes[x] = true
 			}
-			for _, o := range sel {
-				rep := oblReport{Name: o.Name, Kind: o.Kind, Status: o.Status, Backend: o.Solver, TimeS: round3(o.TimeS), VCs: len(o.VCs), SmtSize: o.SmtSize}
-				if len(o.VCs) > 0 {
-					rep.Spec = o.VCs[0].note
-				}
-				if o.Status != "discharged" {
-					rep.Detail = trunc(o.Detail, 600)
-					failed = append(failed, o)
-				}
-				if o.Status == "error" {
-					engineErrs = append(engineErrs, o.Name+": "+o.Detail)
-				}
-				reports = append(reports, rep)
-				backends[o.Solver]++
-				solverTime += o.TimeS
-			}
 		}
+	}
+	// discharge the obligations of all units together (16 cores)
+	solveAll(nil, pendingObs, opts)
+	for _, o := range pendingObs {
+		rep := oblReport{Name: o.Name, Kind: o.Kind, Status: o.Status, Backend: o.Solver, TimeS: round3(o.TimeS), VCs: len(o.VCs), SmtSize: o.SmtSize}
+		if len(o.VCs) > 0 {
+			rep.Spec = o.VCs[0].note
+		}
+		if o.Status != "discharged" {
+			rep.Detail = trunc(o.Detail, 600)
+			failed = append(failed, o)
+		}
+		if o.Status == "error" {
+			engineErrs = append(engineErrs, o.Name+": "+o.Detail)
+		}
+		reports = append(reports, rep)
+		backends[o.Solver]++
+		solverTime += o.TimeS
 	}
 	for _, lu := range pd.Lemmas {
 		obs, assume := w.runLemma(lu, opts, *thorough)
